@@ -715,6 +715,24 @@ class BuiltinMixin:
             return [(st, VRange(terms[0], terms[1]))]
         raise Unsupported("range with step")
 
+    def mapping_view_seq(self, st, it):
+        """`x.items()` / `x.keys()` / `x.values()` of an opaque data object x: a sequence with
+        len(x) entries, and bool(x) == (len(x) > 0) (collections.abc.Mapping; trusted data model)"""
+        if not isinstance(it, VOpaque) or not z3.is_app(it.t) or it.t.decl().name() != "opq$call:value":
+            return None
+        inner = it.t.arg(0)
+        if not (z3.is_app(inner) and inner.decl().name() in ("attr$items", "attr$keys", "attr$values")):
+            return None
+        x, w = inner.arg(0), inner.arg(1)
+        n = z3.Function("ref_len", U, I, I)(x, w)
+        seq = z3.Function("view$" + inner.decl().name()[5:], U, I, SeqU)(x, w)
+        st.assume(n >= 0)
+        st.assume(z3.Length(seq) == n)
+        st.assume(z3.Function("ref_truthy", I, I, B)(U.r(x), w) == (n > 0))
+        self.model_notes = getattr(self, "model_notes", set())
+        self.model_notes.add("collections.abc.Mapping data model: bool(m) == (len(m) > 0) and m.items() has len(m) entries")
+        return seq
+
     def b_itertools_islice(self, st, args, kwargs):
         """islice(it, start, stop): ValueError unless start/stop are None or 0 <= x <= maxsize"""
         it = args[0]
@@ -734,8 +752,11 @@ class BuiltinMixin:
             if seq is None:
                 items = self.concrete_items(st, it)
                 if items is None:
-                    raise Unsupported("islice over unknown iterable")
-                seq = self.list_seq(st, st.alloc(HList(items=items)))
+                    seq = self.mapping_view_seq(st, it)
+                    if seq is None:
+                        raise Unsupported("islice over unknown iterable")
+                else:
+                    seq = self.list_seq(st, st.alloc(HList(items=items)))
         maxsize = z3.IntVal(2**63 - 1)
 
         def bound(v):
